@@ -138,6 +138,9 @@ func Load(patterns []string) (*Engine, error) {
 		for _, cl := range fc.Ensures {
 			scan(cl.Expr)
 		}
+		for _, cl := range fc.Proves {
+			scan(cl.Expr)
+		}
 		for _, a := range fc.Afters {
 			scan(a.Expr)
 			eng.traced[a.Callee] = true
